@@ -20,13 +20,15 @@ def cli(build, script):
     """Runs the script as a file and, separately, line by line through the REPL (for multi-snippet demos); cwd = the demo's directory
     so that module files next to it are found."""
     exe = os.path.join(tgt, build, "yarel-cli")
+    lim = os.environ.get("CONFIRM_ULIMIT_V")      # a demo whose failure is memory growth: run under an address-space limit (KB)
+    wrap = (lambda argv: ["bash", "-c", "ulimit -v %s; exec \"$@\"" % lim, "x"] + argv) if lim else (lambda argv: argv)
     out = {}
     for mode in ("file", "repl"):
         try:
             if mode == "file":
-                p = subprocess.run([exe, script], capture_output=True, text=True, timeout=int(os.environ.get("CONFIRM_TIMEOUT", "60")), cwd=os.path.dirname(script))
+                p = subprocess.run(wrap([exe, script]), capture_output=True, text=True, timeout=int(os.environ.get("CONFIRM_TIMEOUT", "60")), cwd=os.path.dirname(script))
             else:
-                p = subprocess.run([exe], stdin=open(script), capture_output=True, text=True, timeout=int(os.environ.get("CONFIRM_TIMEOUT", "60")), cwd=os.path.dirname(script))
+                p = subprocess.run(wrap([exe]), stdin=open(script), capture_output=True, text=True, timeout=int(os.environ.get("CONFIRM_TIMEOUT", "60")), cwd=os.path.dirname(script))
             out[mode] = {"rc": p.returncode, "stdout": p.stdout[-4000:], "stderr": p.stderr[-2000:]}
         except subprocess.TimeoutExpired:
             out[mode] = {"rc": "timeout", "stdout": "", "stderr": ""}
